@@ -37,7 +37,7 @@ class MetaSignals(type):
 
     def __init__(cls, name: str, bases: tuple[type, ...], d: dict[str, typing.Any]) -> None:
         signals = d.get("signals", [])
-        for superclass in cls.__bases__:
+        for superclass in cls.__mro__[1:]:
             signals.extend(getattr(superclass, "signals", []))
         signals = list(dict.fromkeys(signals).keys())
         d["signals"] = signals
